@@ -416,19 +416,11 @@ def selftest_keys(ctx, trace):
     """Binding self-test: corrupted copies of a recorded prefix (whole scenarios) must each break the clause that guards the
     corrupted fact; the recording itself may only show the known observations."""
     rows = vlib.read_ndjson(trace)
-    keep = []
+    scen = []                     # whole scenarios
     for row in rows:
-        if row.get("ev") == "World" and len(keep) > 400 and all(any(r.get("ev") == ev for r in keep) for ev in ("Restart", "Sync", "Timer")) \
-                and any(r.get("ev") == "Adv" and r["view"]["pos"] == 7 for r in keep):
-            break
-        keep.append(row)
-    good = ctx.path("selftest", "keys_good.ndjson")
-    vlib.write_ndjson(good, keep)
-    ok, info = _validate(ctx, good)
-    base = set(c for _, c in info.get("broken", []))
-    if base - set(OBSERVATIONS):
-        raise vlib.CheckError("binding self-test: the recorded prefix is not clean: %s" % sorted(base))
-
+        if row.get("ev") == "World":
+            scen.append([])
+        scen[-1].append(row)
     def m_admit(rows):       # a refused message shows up in the pool
         for row in rows:
             if row.get("ev") == "Dlv" and any(c in ("sig", "epoch", "flips", "len", "big") for c in row["codes"]):
@@ -470,7 +462,7 @@ def selftest_keys(ctx, trace):
         for row in rows:
             if row.get("ev") == "Dlv" and row.get("view", {}).get("lot") == 1:
                 for s in row.get("sol") or []:
-                    if s[3] == 0 and s[7] in ("nopub", "nopkg"):
+                    if s[3] == 0 and s[7] == "nopub" and all(k[0] != s[0] for k in row["pool"]["keys"]):
                         s[3] = 1
                         s[2] = max(s[2], 1)
                         return "NoKeyNoReach"
@@ -502,9 +494,27 @@ def selftest_keys(ctx, trace):
 
     def m_event(rows):       # an event is removed: the next line of that node does not follow from the carried pool
         for i, row in enumerate(rows):
-            if row.get("ev") == "Dlv" and "ok" in row["codes"]:
+            if row.get("ev") == "Dlv" and "ok" in row["codes"] and any(r.get("n") == row["n"] and r.get("w") == row["w"] and r.get("ev") in ("Dlv", "Adv") and r["view"]["pos"] != 7
+                                                                        for r in rows[i + 1:i + 6]):
                 del rows[i]
                 return "FirstWins"
+
+    muts = (m_admit, m_replace, m_drop, m_reach, m_foreign, m_epoch, m_restart, m_sync, m_early, m_event)
+    # the shortest selection of recorded scenarios on which every corruption can be built: for each mutator the first scenario it applies to
+    chosen = []
+    for mut in muts:
+        j = next((j for j, sc in enumerate(scen) if mut(json.loads(json.dumps(sc))) is not None), None)
+        if j is None:
+            raise vlib.CheckError("binding self-test could not build the corrupted trace %s (no recorded scenario has the step)" % mut.__name__)
+        if j not in chosen:
+            chosen.append(j)
+    keep = [row for j in sorted(chosen) for row in scen[j]]
+    good = ctx.path("selftest", "keys_good.ndjson")
+    vlib.write_ndjson(good, keep)
+    ok, info = _validate(ctx, good)
+    base = set(c for _, c in info.get("broken", []))
+    if base - set(OBSERVATIONS):
+        raise vlib.CheckError("binding self-test: the recorded prefix is not clean: %s" % sorted(base))
 
     def one(job):
         i, mut = job
@@ -520,7 +530,6 @@ def selftest_keys(ctx, trace):
         if ok2 or want not in extra:
             raise vlib.CheckError("binding self-test failed: corrupted trace %s was not rejected by clause %s (broken: %s)" % (mut.__name__, want, sorted(extra)))
         return want
-    muts = (m_admit, m_replace, m_drop, m_reach, m_foreign, m_epoch, m_restart, m_sync, m_early, m_event)
     with concurrent.futures.ThreadPoolExecutor(max_workers=5) as ex:
         caught = list(ex.map(one, list(enumerate(muts))))
     ctx.log("binding self-test: %d corrupted traces rejected (%s)" % (len(caught), ", ".join(caught)))
